@@ -190,7 +190,7 @@ _COUNTER = [0]
 def _options(o):
     from utype import Options
     okw = {}
-    for k in ("immutable", "ignore_required", "ignore_delete_nonexistent", "collect_errors"):
+    for k in ("immutable", "ignore_required", "ignore_delete_nonexistent", "collect_errors", "override"):
         if o.get(k):
             okw[k] = True
     add = o.get("addition", "ignore")
@@ -285,6 +285,72 @@ def build_class(case):
     return cls
 
 
+_PARENTS = {}
+
+
+def build_nested(case, cls):
+    """the instance as the value of a field of another data class (`case["nest"]`): at the parent's construction or by a
+    later assignment through the parent's attribute / item / update; as the field itself, an element of a List or a
+    value of a Dict"""
+    import warnings
+    from typing import Dict, List, Optional
+    from utype import DataClass, Field, Options, Schema
+    n = case["nest"]
+    key = (id(cls), json.dumps(n, sort_keys=True))
+    P = _PARENTS.get(key)
+    if P is None:
+        ann = {"field": cls, "list": List[cls], "dict": Dict[str, cls], "optional": Optional[cls]}[n["shape"]]
+        ns = {"__annotations__": {"n": ann}, "__module__": __name__}
+        okw = _options(n["parent_opts"])
+        if okw:
+            ns["__options__"] = Options(**okw)
+        if n["when"] != "init":
+            ns["n"] = Field(required=False)
+        _COUNTER[0] += 1
+        with warnings.catch_warnings():
+            warnings.simplefilter("ignore")
+            P = type(f"P{_COUNTER[0]}", (Schema if n["parent_base"] == "schema" else DataClass,), ns)
+        _PARENTS[key] = P
+    val = {k: dec(v) for k, v in case["init"]}
+    wrapped = {"field": val, "optional": val, "list": [val], "dict": {"k": val}}[n["shape"]]
+    if n["when"] == "init":
+        p = P(n=wrapped)
+    else:
+        p = P()
+        if n["when"] == "setattr":
+            p.n = wrapped
+        elif n["when"] == "setitem":
+            p["n"] = wrapped
+        else:
+            p.update(n=wrapped)
+    got = p.n
+    if n["shape"] == "list":
+        got = got[0]
+    elif n["shape"] == "dict":
+        got = got["k"]
+    if type(got) is not cls:
+        raise TypeError("nested value is not an instance of the class")
+    return got, p
+
+
+def inst_opts(case):
+    """The options that govern the instance, by the documented rule (not read from the library): its own class's,
+    unless it was built inside a data class whose options say override and its own do not — then the enclosing
+    immutable / ignore_required / ignore_delete_nonexistent (a DataClass accessor always uses its class's)."""
+    o = case["opts"]
+    n = case.get("nest")
+    if not n or case["base"] != "schema":
+        return o
+    p = n["parent_opts"]
+    if p.get("override") and not o.get("override"):
+        e = {k: v for k, v in o.items() if k not in ("immutable", "ignore_required", "ignore_delete_nonexistent")}
+        for k in ("immutable", "ignore_required", "ignore_delete_nonexistent"):
+            if p.get(k):
+                e[k] = True
+        return e
+    return o
+
+
 def exc_name(e) -> str:
     from utype.utils import exceptions as exc
     if isinstance(e, exc.UpdateError):
@@ -358,7 +424,10 @@ def impl(case):
     except Exception as e:  # noqa — the library's own declaration checks decide legality
         return {"skip": "declaration: " + type(e).__name__}
     try:
-        inst = cls(**{k: dec(v) for k, v in case["init"]})
+        if case.get("nest"):
+            inst, _keep = build_nested(case, cls)
+        else:
+            inst = cls(**{k: dec(v) for k, v in case["init"]})
     except Exception as e:  # noqa
         return {"skip": "init: " + exc_name(e)}
     # tables for the model: type-level conversions of every raw argument, order of the dependant sets
@@ -437,7 +506,7 @@ def check_instance(case, table, snap, root, taint, prev_snap=None):
     """Violations of the invariant on one instance snapshot; `root` is the initial snapshot of its lineage.
     Returns a list of (tag, message)."""
     bad = []
-    o = case["opts"]
+    o = inst_opts(case)
     data = {k: v for k, v in snap["data"]}
     attrs = {k: v for k, v in snap["attrs"]}
     view = {k: v for k, v in snap["view"]}
@@ -756,10 +825,34 @@ def gen_ops(rng, case, maxlen):
     return ops
 
 
+def add_nesting(rng, c):
+    """obtain the instance as a nested value; the enclosing class has options of its own"""
+    own = c["opts"]
+    if rng.random() < 0.2:
+        own["override"] = True
+    po = vary_opts(rng, own)
+    if rng.random() < 0.2:
+        po["collect_errors"] = True
+    parent_base = "schema" if rng.random() < 0.75 else "dataclass"
+    when = rng.choice(["init", "init", "setattr", "setitem", "update"])
+    if parent_base == "dataclass" and when in ("setitem", "update"):
+        when = "setattr"
+    if when != "init":
+        po.pop("immutable", None)         # the parent must accept the assignment
+    if c["base"] == "schema" and rng.random() < 0.3:
+        po["override"] = True
+        po["addition"] = own.get("addition", "ignore")   # additions: keep the two rules apart (see design notes)
+    c["nest"] = {"parent_opts": po, "parent_base": parent_base, "when": when,
+                 "shape": rng.choice(["field", "field", "list", "dict", "optional"])}
+    return c
+
+
 def gen_case(rng, maxlen):
     c = gen_class(rng)
     if rng.random() < 0.4:
         c = add_hierarchy(rng, c)
+    if rng.random() < 0.35:
+        c = add_nesting(rng, c)
     c["ops"] = gen_ops(rng, c, maxlen)
     return c
 
@@ -844,7 +937,10 @@ class C07(Check):
             "ignore_required/ignore_delete_nonexistent/collect_errors/addition in {ignore,allow,forbid,int}; Schema 82% / DataClass 18%; "
             "40% of the classes are reached by inheritance: a base class with other declarations of some fields (type, default, "
             "immutable, no_output) and other options, and a subclass that re-declares them (by annotation alone or with a Field), "
-            "inherits the rest, may add a field and may declare its own options, or the Options(...)(Base) variant) "
+            "inherits the rest, may add a field and may declare its own options, or the Options(...)(Base) variant; 35% of the "
+            "instances are obtained as a nested value (field / List / Dict / Optional of the class in a Schema or DataClass parent "
+            "whose options differ: immutable, ignore_required, ignore_delete_nonexistent, addition, collect_errors, override on "
+            "either side), at the parent's construction or by a later assignment through its attribute, item or update) "
             "x operation sequences (<=12 quick, <=40 thorough) over setattr/setitem/delattr/delitem/update/pop/popitem/"
             "setdefault/clear/|=/copy on up to 3 live instances, arguments valid/convertible/invalid 50/25/25 for the "
             "addressed field's type; plus directed copy-then-mutate-both sequences; thorough adds every sequence of length 4 "
@@ -943,7 +1039,8 @@ class C07(Check):
             if op.get("d") is not None:
                 o["d"] = txt(op["d"][0])
             ops.append(o)
-        return {"base": case["base"], "legacy": bool(case.get("legacy")), "opts": case["opts"], "fields": fields,
+        return {"base": case["base"], "legacy": bool(case.get("legacy")), "opts": case["opts"],
+                "enclosing": case["nest"]["parent_opts"] if case.get("nest") else None, "fields": fields,
                 "excluded": case.get("excluded", []), "ptable": io["ptable"], "atable": io["atable"],
                 "deferred": [[f["name"], txt(f["default"])] for f in tab if f["defer"]],
                 # the state handed to __post_init__: the constructed instance minus the computed properties
@@ -1028,7 +1125,7 @@ class C07(Check):
             prev = st["heap"]
         if changed >= 2 and (raised or removed):
             return hashlib.sha1(json.dumps([case["base"], case["opts"], case["fields"], case.get("props"), case["init"],
-                                            case["ops"]], sort_keys=True).encode()).hexdigest()
+                                            case["ops"], case.get("hier"), case.get("nest")], sort_keys=True).encode()).hexdigest()
         return None
 
     def _distribution(self, case, io):
